@@ -62,7 +62,8 @@ pub fn replay(id: &str, path: &str) -> i32 {
     println!("{}", doc["summary"].as_str().unwrap_or(""));
     match (id, replay["kind"].as_str()) {
         ("C01" | "C06" | "C16", Some("pipeline")) => behave::replay_pipeline(replay, behave::env_none(), behave::env_none()),
-        ("C15", Some("resolve" | "convert")) => c15::replay(replay),
+        ("C15", Some("resolve" | "convert" | "nested")) => c15::replay(replay),
+        ("C10", Some("watch history")) => c10::replay_history(replay),
         ("C05", Some("bundle")) => c05::replay(replay),
         _ => {
             println!("no dedicated replay for this record; the summary above holds the complete case");
